@@ -112,8 +112,11 @@ package acl
 //@   requires subcommand: len(params.Command) >= 2
 //@ func handleList props C12
 //@   requires subcommand: len(params.Command) >= 2
+// ACL LOAD: whatever it merged, replaced or appended, the patterns of the users it leaves behind are compiled
+// (compiled: see the end of this file).
 //@ func handleLoad props C12
 //@   requires subcommand: len(params.Command) >= 2
+//@   assert @return {C11,C06} loaded-patterns-compiled: result1 == nil ==> compiled(acl)
 //@ func handleSave props C12
 //@   requires subcommand: len(params.Command) >= 2
 //@ func handleSetUser props C12
@@ -154,3 +157,15 @@ package acl
 //@     invariant forall k int :: 0 <= k && k <= rangeindex && acl.Users[k].Username == username ==> user != nil && user.Username == username
 //@   loop 2
 //@     invariant inv(acl, users) && inv(acl, conns) && user != nil && user.Username != "default" && named(usernames, user.Username)
+
+// ---- pattern compilation -------------------------------------------------------------------------
+
+// compiled(a): every key and channel pattern of every user of a has a compiled form in a.GlobPatterns (authorization
+// calls Match on that entry; a missing entry is a nil interface and the call crashes the server).
+//@ spec compiledlist(a *ACL, l []string) bool = forall j int :: 0 <= j && j < len(l) ==> a.GlobPatterns[l[j]] != nil
+//@ spec compiled(a *ACL) bool = forall i int :: 0 <= i && i < len(a.Users) ==> compiledlist(a, a.Users[i].IncludedReadKeys) && compiledlist(a, a.Users[i].IncludedWriteKeys) && compiledlist(a, a.Users[i].IncludedPubSubChannels) && compiledlist(a, a.Users[i].ExcludedPubSubChannels)
+
+// CompileGlobs establishes it (assumed: its loops collect and compile every listed pattern; gobwas/glob is outside the proof).
+//@ func (*ACL).CompileGlobs trusted props C06,C11
+//@   ensures compiled(acl)
+//@   modifies acl.GlobPatterns[*]
